@@ -36,7 +36,18 @@ def run(res):
     es, ds = cc.parse_lines(out)
     _, corpus = cc.parse_lines("\n".join(cc.corpus_lines(exe, "C12") + cc.corpus_lines(exe, "C11")))
     derived = [x for x in (e.as_dcase() for e in es) if x is not None]
-    alld = corpus + ds + derived
+    # independent peer: the RabbitMQ Go client against a broker loop built from /repo's amqp package only
+    peers = []
+    for k in range(2 if quick else 12):
+        peers += cc.peer_lines(exe, int(res.seed) * 100 + k, 10 if quick else 40)
+    peer_bad = [p for p in peers if not p.agrees()]
+    peer_d = [x for x in (p.as_dcase() for p in peers) if x is not None]
+    res.cov["independent_peer"] = dict(peer="github.com/rabbitmq/amqp091-go (module cache; a dependency of /repo's own tests), RabbitMQ dialect",
+                                       crossings=len(peers), client_to_broker=sum(1 for p in peers if p.dir == "c2s"),
+                                       broker_to_client=sum(1 for p in peers if p.dir == "s2c"), disagreements=len(peer_bad),
+                                       what="every method and content header crossing an in-memory pipe: value given to the sender = value decoded by the "
+                                            "receiver, and the Coq model decodes the same bytes to that value (three-way)")
+    alld = corpus + ds + derived + peer_d
     bad_e = bad_d = None
     if pr["runners_ok"]:
         bad_e, bad_d, allocs, skipped = cc.eval_cases(es, alld, "C12")
@@ -61,7 +72,7 @@ def run(res):
     res.cov["traces_validated_against_impl"] = (len(es) - len(bad_e or [])) + (len(alld) - len(bad_d or []))
     res.cov["exhaustive"] = False
     res.cov["alloc_shapes"] = cc.alloc_shapes()
-    decide(res, pr, tr, exe, es, alld, bad_e, bad_d, rt_fail, enc_fail)
+    decide(res, pr, tr, exe, es, alld, bad_e, bad_d, rt_fail, enc_fail, peer_bad)
 
 
 def shrink_roundtrip(exe, seed, e):
@@ -69,8 +80,8 @@ def shrink_roundtrip(exe, seed, e):
     return e
 
 
-def decide(res, pr, tr, exe, es, alld, bad_e, bad_d, rt_fail, enc_fail):
-    if pr["ok"] and bad_e == [] and bad_d == [] and not rt_fail and not enc_fail:
+def decide(res, pr, tr, exe, es, alld, bad_e, bad_d, rt_fail, enc_fail, peer_bad=()):
+    if pr["ok"] and bad_e == [] and bad_d == [] and not rt_fail and not enc_fail and not peer_bad:
         return
     what = []
     if not pr["ok"]:
@@ -78,6 +89,15 @@ def decide(res, pr, tr, exe, es, alld, bad_e, bad_d, rt_fail, enc_fail):
     if bad_e is None:
         what.append("model runner does not build")
     replay_cmd = "harness/bin/codec case -seed %s -idx %%d" % res.seed
+    # 0. the independent peer and the implementation read different values out of the same bytes
+    if peer_bad:
+        p = min(peer_bad, key=lambda x: len(x.raw))
+        res.violation(dict(kind="peer-disagrees", direction=p.dir, case_kind=p.kind, dialect="rabbit", bytes=p.hex, sender_value=p.sent,
+                           receiver_value=p.received, broken=what, failing_cases=len(peer_bad),
+                           replay_cmd="harness/bin/codec peer -seed <seed*100+k> -n <rounds>   (see checks/C12.py)"),
+                      True, "independent peer (amqp091-go) and implementation disagree, %s %s: sent %s, received %s" %
+                      (p.dir, p.kind, p.sent[:300], p.received[:300]))
+        return
     # 1. a value that does not come back from Go's own decoder: the property fails on the implementation itself
     if rt_fail or enc_fail:
         e = min(rt_fail or enc_fail, key=lambda x: len(x.raw))
